@@ -57,6 +57,9 @@ def _kinds() -> List[dict]:
     add("date", DATE_, lambda s, n: ast.Date("2031-07-19"), sentinel="2031-07-19")
     add("time", TIME_, lambda s, n: ast.Time("21:43:59"), sentinel="21:43:59")
     add("datetime", DT_, lambda s, n: ast.DateTime("2031-07-19T21:43:59Z"), sentinel="2031-07-19")
+    add("datetime-min-offset", DT_, lambda s, n: ast.DateTime("0001-01-01T00:00:00+01:00"), sentinel="0001")
+    add("datetime-max-offset", DT_, lambda s, n: ast.DateTime("9999-12-31T23:59:59.999999-01:00"), sentinel="9999")
+    add("date-min", DATE_, lambda s, n: ast.Date("0001-01-01"), sentinel="0001")
     add("duration", DUR, lambda s, n: ast.Duration("P41DT7H"), sentinel="41")
     add("guid", GUID_, lambda s, n: ast.GUID("6c0e37e3-e856-45ee-bd58-484b11882c67"), sentinel="6c0e37e3")
     add("geography", GEO, lambda s, n: ast.Geography("POINT(1 2)"))
@@ -521,6 +524,29 @@ def main() -> int:
                                    f"position={still[0][2]}: {o[0]} {str(o[1])[:100]}", name="known:" + ent["id"], family="known")
         elif ent.get("witness", {}).get("combos"):
             run.notes.append(f"known finding {ent['id']}: no listed combination fails any more - nothing excluded")
+    # every (backend, kind, position) combination is first decided concretely on the sentinel instantiation (enumeration,
+    # labelled as such): a foreign exception / placeholder / incomplete translation there is reported directly - CrossHair is
+    # unreliable on some third-party code paths (time-zone arithmetic, SQLAlchemy internals) - and excluded from the symbolic
+    # picks below, which then quantify over the leaf contents and certify the case split for all remaining combinations
+    conc_bad = 0
+    for bi in range(len(BACKENDS)):
+        for ki in range(len(KINDS)):
+            if crosshair_unfit(bi, ki):
+                continue
+            for pi in range(len(POS)):
+                if (bi, ki, pi) in live or not well_typed(KINDS[ki], POS[pi]):
+                    continue
+                if not _verdict(bi, ki, pi, "zqx", 7013):
+                    conc_bad += 1
+                    o = outcome(bi, ki, pi, "zqx", 7013)
+                    key = [BACKENDS[bi]["name"], KINDS[ki]["name"], POS[pi]["name"]]
+                    live[(bi, ki, pi)] = "violation"
+                    if conc_bad <= 12:
+                        run.violation("concrete:" + "/".join(key), {"combo": key, "outcome": [o[0], str(o[1])[:300]],
+                                                                    "incomplete": COMPLETE.get((bi, ki, pi))},
+                                      f"backend={key[0]} kind={key[1]} position={key[2]}: {o[0]} {str(o[1])[:160]} "
+                                      f"{COMPLETE.get((bi, ki, pi)) or ''}", family="concrete-enumeration")
+    run.extra["concrete_prepass_failures"] = conc_bad
     items: List[Item] = []
     chunk = 6
     for bi, b in enumerate(BACKENDS):
